@@ -66,6 +66,7 @@ BASE_SCENARIOS: List[List[Any]] = [
     [["create"], ["append", 1], ["append", 4], ["delete_snapshot", 0], ["append", 2]],
     [["create"], ["append", 2], ["reopen"], ["delete_append", 0, 3], ["append_expire", 2], ["delete_snapshot", 1]],
     [["create"], ["expire"], ["append", 0], ["delete", 0], ["append", 5]],
+    [["create"], ["abort", [2]], ["append", 2], ["abort", [1, 3]], ["delete", 0]],
 ]
 
 
@@ -133,6 +134,22 @@ class Case:
             for p in mine:
                 by_kind.setdefault(powerloss.kind_of(p["rel"]), []).append(p)
             metas, ptrs = by_kind.get("metadata", []), by_kind.get("pointer", [])
+            if not metas and not ptrs and set(by_kind) <= {"marker", "data"} and res.get("aborted"):
+                # a rolled-back transaction: marker + data file pairs, all unlinked again
+                markers = {os.path.basename(p["rel"])[: -len(".inflight")]: p for p in by_kind.get("marker", [])}
+                data_order = [d.lstrip("/") for d in res.get("data_files", [])]
+                datas = sorted(by_kind.get("data", []), key=lambda p: data_order.index(p["rel"]) if p["rel"] in data_order else 10**6)
+                its = []
+                for f in datas:
+                    m = markers.pop(os.path.basename(f["rel"]), None)
+                    if m is None:
+                        self.problems.append(f"step {i}: {f['rel']} published without a marker")
+                    else:
+                        its.append({"marker": self.pub(m), "file": self.pub(f)})
+                if markers:
+                    self.problems.append(f"step {i}: markers without a file: {sorted(markers)}")
+                self.ops.append({"abort": its, "step": i})
+                continue
             if len(metas) != 1 or len(ptrs) != 1 or by_kind.get("unknown"):
                 self.problems.append(f"step {i} {res['step']}: not a commit (metadata files {len(metas)}, pointer writes {len(ptrs)}, "
                                      f"unknown files {[p['rel'] for p in by_kind.get('unknown', [])]}, ok={res.get('ok')}, err={res.get('error')})")
@@ -172,7 +189,8 @@ class Case:
         def items(l: List[Dict[str, Any]]) -> str:
             return "[" + "; ".join(f"mkItem {pub(it['marker'])} {pub(it['file'])}" for it in l) + "]"
         return "[" + "; ".join(
-            f"mkCommit {items(c['data'])} {items(c['manifests'])} {items(c['list'])} {pub(c['meta'])} {ostrace.tokens_coq(c['ptr'])}"
+            f"OAbort {items(c['abort'])}" if "abort" in c else
+            f"OCommit (mkCommit {items(c['data'])} {items(c['manifests'])} {items(c['list'])} {pub(c['meta'])} {ostrace.tokens_coq(c['ptr'])})"
             for c in self.ops) + "]"
 
     def calls_nomkdir(self) -> List[Any]:
@@ -342,8 +360,10 @@ def random_scenario(rng, maxlen: int) -> List[Any]:
             steps.append(["expire"])
         elif r < 0.87:
             steps.append(["append_expire", rng.choice([1, 2])])
-        elif r < 0.95:
+        elif r < 0.93:
             steps.append(["delete_snapshot", rng.randrange(4)])
+        elif r < 0.97:
+            steps.append(["abort", [rng.choice([1, 2]) for _ in range(rng.choice([1, 2]))]])
         else:
             steps.append(["reopen"])
     return steps
@@ -356,7 +376,7 @@ def corr_model(ctx, cases: List[Case]) -> None:
         exprs.append(f"trace_of {c.ops_coq()}")
         exprs.append(f"wf {c.ops_coq()}")
         exprs.append(f"(disciplined {ostrace.calls_coq(c.calls)}, first_bad g0 {ostrace.calls_coq(c.calls)} 0%nat)")
-    got = coqbuild.coq_eval(REQ, exprs, preamble=PRE)
+    got = coqbuild.coq_eval(REQ, exprs, preamble=PRE, chunk=6)
     bad_t, bad_w, bad_d = [], [], []
     for k, c in enumerate(cases):
         model_trace = [ostrace.call_from_coq(t) for t in got[3 * k]]
@@ -411,7 +431,7 @@ def corr_evaluator(ctx, cases: List[Case]) -> None:
         ps = "[" + "; ".join(ostrace.path_coq(p) for p in paths) + "]"
         exprs.append(f"let tr := {ostrace.calls_coq(c.calls)} in map (fun n => match exec fs0 (firstn n tr) with "
                      f"Some s => map (content_at (power_loss s)) {ps} | None => [] end) (seq 0%nat (S (List.length tr)))")
-    got = coqbuild.coq_eval(REQ, exprs, preamble=PRE)
+    got = coqbuild.coq_eval(REQ, exprs, preamble=PRE, chunk=6)
     bad = []
     n = 0
     for c, exp, g in zip(kept, expected, got):
@@ -475,7 +495,7 @@ def corr_schedules(ctx, cases: List[Case], per_case: int) -> None:
                     expected.append(tree_tokens(c, fs, paths, rel_of))
                     exprs.append("match run fs0 [" + "; ".join(events) + f"] with Some s => map (content_at (power_loss s)) {ps} | None => [] end")
                     info.append({"steps": c.steps, "tracer": c.mode, "cut": k + 1, "bg_events": sum(1 for e in events if e.startswith("Bg"))})
-    got = coqbuild.coq_eval(REQ, exprs, preamble=PRE)
+    got = coqbuild.coq_eval(REQ, exprs, preamble=PRE, chunk=6)
     bad = []
     for inf, exp, g in zip(info, expected, got):
         g2 = [None if x is None else ostrace.tokens_from_coq(x.x) for x in g]
@@ -527,7 +547,8 @@ def run(ctx) -> None:
     allc = cases + scases
     ctx.stats["raw_events"] = sum(len(c.raw) for c in allc)
     ctx.stats["canonical_calls"] = sum(len(c.calls) for c in allc)
-    ctx.stats["commits_modelled"] = sum(len(c.ops) for c in allc)
+    ctx.stats["commits_modelled"] = sum(1 for c in allc for o in c.ops if "abort" not in o)
+    ctx.stats["aborts_modelled"] = sum(1 for c in allc for o in c.ops if "abort" in o)
     ctx.stats["dropped_by_projection"] = {k: sum(c.can["dropped"][k] for c in allc) for k in ("locks", "open_nocreat", "reopen_empty")}
     ctx.stats["step_kinds"] = {}
     for c in allc:
